@@ -492,7 +492,16 @@ func (u *uploader) CompleteMultipartUpload(bucket, object string, id UploadID, i
 
 	etag = fmt.Sprintf(`"%s-%d"`, hex.EncodeToString(hash.Sum(nil)), len(input.Parts))
 
-	result, err := u.storage.PutObject(bucket, object, mpu.Meta, bytes.NewReader(body), int64(len(body)))
+	// The backend gets a copy of the metadata: PutObject merges the metadata of
+	// the object it replaces into the map it is given (MergeMetadata). Should
+	// the store then fail, the upload stays pending and must still carry what
+	// was given at initiation, not what some earlier object had.
+	meta := make(map[string]string, len(mpu.Meta))
+	for k, v := range mpu.Meta {
+		meta[k] = v
+	}
+
+	result, err := u.storage.PutObject(bucket, object, meta, bytes.NewReader(body), int64(len(body)))
 	if err != nil {
 		return "", "", err
 	}
